@@ -60,21 +60,25 @@ CLAIMS = {
 CLAIMS.update({
     'C03': dict(
         category='proof',
-        technique='Lean 4 invariant proof (walk_layout, assemble_layout) over a pass-by-pass model + decoded-transfer oracle on the real output',
+        technique='Lean 4 invariant proof (walk_layout, assemble_layout) and per-transfer landing theorems (branch_lands, jal_lands, cj_lands, cb_lands, far_pair_offsets) over a pass-by-pass model + decoded-transfer oracle on the real output',
         text=('Theorems: the in-place label shifting of transform_compressible / transform_pseudo_instructions / resolve_aligns keeps the '
               'label table equal to the layout of the item list for every list and loop body (walk_layout, by induction, no size bound), and '
               'chaining it through assemble() shows that the reported label table gives for every label exactly the number of bytes emitted '
-              'before its marker and the binary is the in-order concatenation of the blobs (assemble_layout). That the encoded offset then '
-              'lands on the label follows from the encoder round trips (C01/C02/C07). Tie and search: 1500+ seeded programs per run (all '
+              'before its marker and the binary is the in-order concatenation of the blobs (assemble_layout). branch_lands / jal_lands / cj_lands / '
+              'cb_lands: an item b/jal/c.j/c.jal/c.beqz/c.bnez ... L resolved at position p and encoded yields the bytes of a word the '
+              'specification decodes to that transfer with p + offset = labels[L], for every distance the encoder accepts; far_pair_offsets: '
+              'the auipc and its jalr carry %hi/%lo of the same offset labels[L] - p and rebuild it mod 2^32. Tie and search: 1500+ seeded programs per run (all '
               'distance classes, pessimistically-far and really-far call/tail layouts, both modes) are assembled by the real code; label '
               'offsets are recomputed from the per-item chunks and every branch/jump/call/tail is decoded by the Lean spec and must reach its label.'),
         note=TB + ' Hypotheses of assemble_layout: every align argument / include_bytes size is non-negative; no caller-pre-populated label table.',
         ref='DESIGN.md §5 C03'),
     'C08': dict(
         category='proof',
-        technique='assemble_layout (final label table = byte offsets) + positions tracked by the resolve_immediates walk; value oracle on the real output',
-        text=('The model evaluates every immediate in resolve_immediates at the walk position, which walk_layout/assemble_layout prove to be '
-              'the byte offset of the item, against the final label table. The check recovers the value each referring item encodes in the real '
+        technique='Lean 4 theorems: assemble_layout (final label table = byte offsets), imm_walk_positions and offset/position/hi/lo_value (what each modifier evaluates to, at which position); value oracle on the real output',
+        text=('Theorems: resolve_immediates visits every item at its own byte position and moves no label (imm_walk_positions), against the '
+              'final label table, which assemble_layout proves to be the byte offsets; %offset(L) = labels[L] - position, %position(L, b) = '
+              'labels[L] + b, a bare label = labels[L], %hi/%lo of those values (offset_value, position_value, hi_value, lo_value, '
+              'data_item_value, instr_item_value; the jalr of an auipc pair at the auipc position). The check recovers the value each referring item encodes in the real '
               'output (data bytes, decoded immediates, executed li) for dw/dd/pack, li, %hi/%lo pairs and I-type immediates written as bare '
               'labels, %position and %offset, before/after the label, across aligns and shrinking code, both modes. Known findings: KF-D '
               '(li with %offset, long form), KF-A (stale early decisions).'),
@@ -82,9 +86,11 @@ CLAIMS.update({
         ref='DESIGN.md §5 C08'),
     'C09': dict(
         category='proof',
-        technique='assemble_layout + alignPadding_range (minimal zero padding) + chunk-walk oracle on the real output',
-        text=('assemble_layout proves the output is the in-order concatenation of the final blobs with every pass after resolve_aligns '
-              'one-to-one and size-preserving; alignPadding_range proves 0 <= padding < N and (position + padding) mod N = 0 for every N >= 1. '
+        technique='Lean 4 theorems: assemble_in_order (item-by-item order preservation through all fifteen passes), assemble_layout, align_minimal / align_emits_zeros + chunk-walk oracle on the real output',
+        text=('assemble_in_order: whenever assembly succeeds the final blob list is the concatenation, in source order, of one image per '
+              'source item - every blob carries the line of the item it came from, labels and constants contribute nothing, a data item exactly '
+              'its documented size, an instruction 2 or 4 bytes (Expands is transitive and holds of each of the fifteen passes). '
+              'align_minimal: the padding is the least pad >= 0 with N | position + pad, and pad < N; align_emits_zeros: those bytes are zeros. '
               'The check walks the per-item chunks of the real output: chunk order = source order, documented size per line, aligns emit the '
               'minimal number of zero bytes at every residue, data lines emit Python\'s own int.to_bytes / str.encode of the written values.'),
         note=TB,
